@@ -965,7 +965,21 @@ def suite_io(g, n):
             g.add('jcf_read', ' '.join(map(str, toks)), kind=kind)
         elif op == 'from_str':
             m, nn = rng.randint(1, 5), rng.randint(1, 80)
-            g.add('from_str', '%d %d %s' % (m, nn, ''.join(rng.choice('01') for _ in range(m * nn))))
+            if rng.random() < 0.5:
+                m, nn = rng.randint(1, 6), rng.choice([64, 65, 100, 128, 129, 130, 200, 257])
+            kind = rng.choice(['dense', 'dense', 'sparse', 'identity', 'zeroblocks', 'lastcol'])
+            def ch(i, j):
+                if kind == 'dense':
+                    return rng.choice('01')
+                if kind == 'sparse':
+                    return '1' if rng.random() < 0.03 else '0'
+                if kind == 'identity':
+                    return '1' if i == j else '0'
+                if kind == 'lastcol':
+                    return '1' if j == nn - 1 else '0'
+                # aligned all-zero 64-character blocks next to dense ones
+                return '0' if ((j // 64) + i) % 2 == 0 else rng.choice('01')
+            g.add('from_str', '%d %d %s' % (m, nn, ''.join(ch(i, j) for i in range(m) for j in range(nn))))
         elif op == 'png_hdr':
             depth, ct = rng.choice([(1, 0), (2, 0), (4, 0), (8, 0), (16, 0), (1, 3), (2, 3), (4, 3), (8, 3), (8, 2), (16, 2), (8, 4),
                                     (16, 4), (8, 6), (16, 6)])
